@@ -295,6 +295,9 @@ func propC12(c *Check) {
 	ruleR13_1(c)
 	ruleR13_3(c)
 	ruleR08_1(c)
+	// a table cut between two versions of one key lets a later compaction pick the table holding
+	// the marker without the one holding the older version (same level is never scanned by the guard)
+	ruleR14_2(c)
 }
 
 // ---- C13 ----
